@@ -2033,6 +2033,22 @@ def _iter_fold(I, f, a):
     return acc
 
 
+@model("std::iter::Iterator::zip")
+def _iter_zip(I, f, a):
+    x, y = into_iter(I, a[0]), into_iter(I, a[1])
+
+    class Zip(It):
+        def next(self, I2):
+            p = x.next(I2)
+            if not is_some(p):
+                return none()
+            q = y.next(I2)
+            if not is_some(q):
+                return none()
+            return some(Agg("tuple", None, [p.fields[0], q.fields[0]]))
+    return Zip()
+
+
 @model("std::iter::from_fn")
 def _iter_from_fn(I, f, a):
     cl = a[0]
